@@ -62,14 +62,15 @@ def run_impl(case):
     return _run_impl(case)
 
 
-def expand_refs(spec):
-    """["ref", j] (the same object as sibling j) is, for the value-semantics model, a second copy of sibling j"""
+def expand_refs(spec, up=None):
+    """["ref", j] (the same object as sibling j) and ["upref", j] (the same object as item j of the enclosing window) are, for the value-semantics model, further
+    copies of that item"""
     if not isinstance(spec, list) or not spec: return spec
     if spec[0] in ("window", "list"):
         ki = 2 if spec[0] == "window" else 6
         kids = []
         for x in spec[ki]:
-            kids.append(kids[x[1]] if x[0] == "ref" else expand_refs(x))
+            kids.append(kids[x[1]] if x[0] == "ref" else up[x[1]] if x[0] == "upref" else expand_refs(x, kids if spec[0] == "window" else None))
         return spec[:ki] + [kids] + spec[ki + 1:]
     if spec[0] == "center": return ["center", expand_refs(spec[1])]
     return spec
